@@ -29,7 +29,9 @@ CLAIMS = {
             "candidate-origin analysis: which part of which operand can reach the returned value; whole-operand returns for nested "
             "half-lines) and no result return of the candidate region -- in particular no `return None` -- "
             "can bypass a family, so overlaps are not reduced to one end point or reported as disjoint; (3) the "
-            "kernels' partial operations (division by n.dv, normalised cross products) are guarded by the parallel tests. "
+            "kernels' partial operations (division by n.dv, normalised cross products) are guarded by the parallel tests; (4) a numeric "
+            "ordering comparison that leads straight to `return None` leaves a tolerance margin (merely touching operands are not "
+            "reported as disjoint because of float noise). "
             "NOT decided: that the kernels compute the right coordinates, that no point is missed in generic position, "
             "the tolerance band, None only when disjoint."
         ),
@@ -46,7 +48,8 @@ CLAIMS = {
             "of loops / comprehensions / private helpers) with identical families of the two "
             "sibling helpers; propositional exhaustiveness of the end-point case split of segment x polyhedron; the Point-in-polygon / "
             "Point-in-polyhedron predicates that clip every hit reject only beyond a tolerance margin that depends on the live get_eps() "
-            "(touching and boundary hits are not lost to float noise). NOT decided: coordinates, the "
+            "(touching and boundary hits are not lost to float noise), and so do numeric comparisons that lead straight to `return None` in the handlers and helpers "
+            "(whether such a numeric pre-filter is geometrically right is NOT decided). NOT decided: coordinates, the "
             "longest-segment selection, hash-merging of coincident hits, tangency classification."
         ),
         note=NOTE_COMMON + "A4 as for C01.",
@@ -138,7 +141,8 @@ CLAIMS = {
             "re-assigned from data depending on v / refreshed state and on no stale positional field; the success path "
             "returns a constructor call of the own class built from refreshed state; a non-Vector argument raises. A "
             "forgotten cached field (carrier line, plane, centre, edge/pyramid sets) is exactly what makes queries on "
-            "the moved receiver answer for the old position. NOT decided: measures unchanged, v then -v restores "
+            "the moved receiver answer for the old position. No two in-place translations on one path of a move() reach the same object (the same field twice, or two fields that share an object "
+            "because a by-reference constructor was fed from the other field -- derived from the effect summaries). NOT decided: measures unchanged, v then -v restores "
             "equality (floating point)."
         ),
         note=NOTE_COMMON,
@@ -183,6 +187,7 @@ CLAIMS = {
             "[0, pi/2] by an interval domain (acute() folds exactly at pi/2); the vector predicate is swapped and the angle "
             "complemented iff the two direction kinds (tangent/normal) differ; every acos argument is clamped to [-1, 1] so "
             "that parallel, anti-parallel and perpendicular operands cannot raise; the method forms forward (self, other). "
+            "Inverse trigonometric sites: acos/asin arguments are clamped, atan is not applied to a quotient whose denominator is a sum or difference of the operands (atan2 is total). "
             "A predicate decided by comparing an inverse-cosine angle with the tolerance is reported (acos(1 - 2**-53) is about 1.5e-8). "
             "NOT decided: that parallel/orthogonal are True exactly at angle 0 / pi/2 (tolerance numerics)."
         ),
@@ -200,7 +205,8 @@ CLAIMS = {
             "the circle's plane for every normal, also near-axis ones); n < 3 is rejected on every "
             "path with the right threshold; every ring/cap/side loop ranges over the full index range with a wrap-around "
             "successor (modulo, if-idiom, wrap helper or zip-with-rotation); in Cylinder and Cone every vertex ring used for the side faces is requested with the same "
-            "centre, normal (up to a positive factor), radius and n as a cap, so caps and side faces share their vertices. NOT decided: vertex/edge/face counts, vertices on the specified surface at equal steps, closed-form "
+            "centre, normal (up to a positive factor), radius and n as a cap, so caps and side faces share their vertices; the rejection guards of Parallelogram / Parallelepiped are even in every edge vector (parity domain: "
+            "a signed area / triple product compared one-sidedly refuses half of the valid argument orders). NOT decided: vertex/edge/face counts, vertices on the specified surface at equal steps, closed-form "
             "area and volume (numeric)."
         ),
         note=NOTE_COMMON,
